@@ -22,7 +22,7 @@ ASSUMPTIONS = ['endpoint set fixed after construction (no re-registration of a n
 RULE = ('operation histories over {fwd, del, sink, source, get, send, spin, open, close, inject(msg|no-data)}; exhaustive over a fixed '
         'alphabet on 2 endpoints (+1 unknown name) from 3 start states, then random histories up to length 60 on 1..4 endpoints with 0..3 sinks/sources; '
         'distinct = distinct op sequences; non-trivial = the history contains at least one receive that returned data while a rule was registered')
-SAMPLED = ['UDP loopback smoke run (real sockets on 127.0.0.1): time-out receive returns None, close does not raise']
+SAMPLED = ['UDP endpoint contract (real sockets on 127.0.0.1): time-out receive returns None (also after earlier receives), each datagram is returned once, close does not raise; short random send/poll history through the hub']
 
 
 # ------------------------------------------------------------------ implementation side
@@ -239,11 +239,84 @@ def _violates(n, ops):
 
 
 def replay(data):
+    if data['input'].get('udp'):
+        class _R:
+            pass
+        r = _R(); r.violations = []; r.stats = {}
+        udp_smoke(r)
+        udp_history(r, int(data['input'].get('seed', 0)))
+        for v in r.violations:
+            print('observed: %s' % v['what'])
+        if not r.violations:
+            print('observed: no violation')
+        return not r.violations
     v = _violates(data['input']['endpoints'], data['input']['ops'])
     print('history: %s' % data['input']['ops'])
     print('observed: %s' % (v or 'no violation'))
     return v is None
 
+
+
+def udp_history(res, seed):
+    """real UDP sockets on loopback, a short random history: A --socket--> B (sink, forward to M) ; M --socket--> N.
+    Every message is delivered exactly once to the sink and forwarded exactly once; a poll with nothing waiting — also after
+    earlier successful receives — returns None, reaches no sink and forwards nothing."""
+    try:
+        from basic_robotics.interfaces.comms_core import Comms
+        import socket
+        ports = []
+        for _ in range(4):
+            s = socket.socket(socket.AF_INET, socket.SOCK_DGRAM)
+            s.bind(('127.0.0.1', 0)); ports.append(s.getsockname()[1]); s.close()
+    except Exception as e:
+        res.stats['udp_history'] = 'skipped: %r' % (e,)
+        return
+    p1, p2, p3, p4 = ports
+    got, ops = [], []
+    c = Comms()
+    c.newComPort('A', 'UDP', ip='127.0.0.1', rx_port=p1, tx_port=p2, timeout=0.03)
+    c.newComPort('B', 'UDP', ip='127.0.0.1', rx_port=p2, tx_port=p1, timeout=0.03)
+    c.newComPort('M', 'UDP', ip='127.0.0.1', rx_port=p3, tx_port=p4, timeout=0.03)
+    c.newComPort('N', 'UDP', ip='127.0.0.1', rx_port=p4, tx_port=p3, timeout=0.03)
+    rr = random.Random(seed * 7919 + 1919)
+    try:
+        ops.append('open')
+        for n in 'ABMN':
+            c.openCom(n)
+        c.setDataSink('B', lambda d: got.append(d))
+        c.setForwardData('B', 'M')
+        pend_b, pend_n, want = [], [], []
+        script = ['send', 'poll-B', 'poll-B', 'poll-N', 'poll-N']      # a receive, then an empty poll after it, on both hops
+        for n in range(20):
+            k = script[n] if n < len(script) else rr.choice(['send', 'send', 'poll-B', 'poll-B', 'poll-N'])
+            ops.append('%s#%d' % (k, n))
+            if k == 'send':
+                m = 'm%d' % n
+                c.sendData('A', m); pend_b.append(m)
+                continue
+            if k == 'poll-B':
+                r = c.getData('B')
+                exp = pend_b.pop(0) if pend_b else None
+                if exp is not None:
+                    want.append(exp); pend_n.append(exp)
+            else:
+                r = c.getData('N')
+                exp = pend_n.pop(0) if pend_n else None
+            if r != exp or got != want:
+                res.violations.append({'key': 'udp:history:%s' % ('stale-or-extra' if exp is None else 'delivery'), 'input': {'ops': list(ops), 'udp': True, 'seed': seed},
+                                       'observed': {'returned': r, 'expected': exp, 'sink_received': list(got), 'sink_expected': list(want)},
+                                       'what': 'UDP hub history: %s returned %r (expected %r); sink saw %r (expected %r)' % (k, r, exp, got, want)})
+                break
+        res.stats['udp_history'] = 'ran %d steps, %d messages delivered' % (len(ops) - 1, len(want))
+    except Exception as e:
+        res.violations.append({'key': 'udp:raises:%s:%s' % (ops[-1].split('#')[0], type(e).__name__), 'input': {'ops': ops, 'udp': True, 'seed': seed},
+                               'observed': repr(e), 'what': 'UDP hub operation %s raised %r' % (ops[-1], e)})
+    finally:
+        for n in 'ABMN':
+            try:
+                c.closeCom(n)
+            except Exception:
+                pass
 
 def udp_smoke(res):
     """real UDP sockets on loopback: a timed-out receive is silent; close does not raise"""
@@ -368,3 +441,4 @@ def run(res, tier, seed, driver_ok):
     res.sample({'endpoints': hists[n_exh_full - 1][0], 'ops': hists[n_exh_full - 1][1]})
     res.sample({'endpoints': hists[-1][0], 'ops': hists[-1][1][:25]})
     udp_smoke(res)
+    udp_history(res, seed)
